@@ -64,6 +64,7 @@ def main():
     ap.add_argument('--digests', help='write per-run event-log digests to this file (determinism self-test)')
     ap.add_argument('--no-evidence', action='store_true')
     ap.add_argument('--no-shrink', action='store_true')
+    ap.add_argument('--list', action='store_true', help='list failure counts per (check, ctx)')
     args = ap.parse_args()
     pid = args.pid.upper()
     if args.replay:
@@ -128,6 +129,15 @@ def main():
         with open(args.digests, 'w') as f:
             json.dump({str(i): [results[i].get('digest', ''), results[i]['verdict'],
                                 sorted(x['check'] for x in results[i].get('failures', []))] for i, _ in recs}, f, indent=0)
+
+    if args.list:
+        tab = {}
+        for i, rec in recs:
+            for f in results[i].get('failures', []):
+                key = (f['check'], json.dumps(f['ctx'], sort_keys=True, default=str))
+                tab.setdefault(key, []).append((i, f['detail']))
+        for key, lst in sorted(tab.items()):
+            log(f'LIST {key[0]} ctx={key[1]} runs={len(lst)} first={lst[0][0]}: {lst[0][1][:300]}')
 
     # ------------------------------------------------------------- report known findings
     for k in known:
